@@ -447,6 +447,13 @@ func run(c Case, o *lib.Obs) error {
 				}
 			}
 		}
+		// A target that declares nothing is not this property's business: a corrupted cache copy is then
+		// accepted as it is (cache integrity is C12/C13). The case ends here, since what is now in plz-out
+		// and in the cache is no longer what the model thinks.
+		if len(declared) == 0 && poisoned > 0 {
+			o.Label("ended:nothing-declared-and-cache-corrupted")
+			break
+		}
 		lib.ResetActions(e.W)
 		where := fmt.Sprintf("step %d/%d (%s, kind %s, hashfunction=%s checkers=%v, content v%d, declared %q, accepted by reference: %d, wipe=%v, cached copies corrupted=%d; earlier: %v)",
 			si+1, len(c.Steps), st.Cmd, c.Kind, c.hashFunction(), c.checkers(), ver, declared, nAcc, st.Wipe, poisoned, trail)
